@@ -73,11 +73,15 @@ def structure_run(mode, spectrum, cloud, optical, radio, thrown):
                 all((k in t.meta) == optical for k in OKEYS) and all((k in t.meta) == radio for k in RKEYS))
             # cross-stage consistency: every stage consumed the same surviving events
             v = rec.vals
-            claims["stages are mutually consistent: stored columns are the values handed downstream (tau energy, decay altitude, neutrino energy, radio field)"] = z3.And(
-                _col_eq(t["tauEnergy"], v["tauEnergy"]), _col_eq(t["altDec"], v["altDec"]), _col_eq(t["log_e_nu"], v["log_e_nu"]),
-                z3.BoolVal(not radio or v["snr_args"][0] is v["EFields"]))
+            try:
+                consistent = z3.And(
+                    _col_eq(t["tauEnergy"], v["tauEnergy"]), _col_eq(t["altDec"], v["altDec"]), _col_eq(t["log_e_nu"], v["log_e_nu"]),
+                    z3.BoolVal(not radio or v["snr_args"][0] is v["EFields"]))
+            except KeyError:  # a stage's column is missing from the table altogether
+                consistent = z3.BoolVal(False)
+            claims["stages are mutually consistent: stored columns are the values handed downstream (tau energy, decay altitude, neutrino energy, radio field)"] = consistent
         # ---- channel isolation: rerun with the other channel switched off, same seed ------------
-        if n_cols and optical and radio:
+        if n_cols and optical and radio and sorted(t.cols) == sorted(expected_columns(mode, optical, radio)):
             C.ndraw = 0
             rec_o = cm.run_compute(mode=mode, optical=True, radio=False, thrown=thrown, spectrum=spectrum, cloud=cloud, real_mcintegral=True, cfg=_clone_cfg(rec.cfg, True, False))
             C.ndraw = 0
